@@ -295,6 +295,8 @@ class Interp:
             rest = d[len("sqlglot.exp."):]
             if rest.startswith("DataType.Type."):
                 return EnumV(rest)
+            if rest.startswith("DataType.") and rest.split(".", 1)[1] in self.prog.sqlglot.type_sets:
+                return Tup([EnumV(f"DataType.Type.{m_}") for m_ in self.prog.sqlglot.type_sets[rest.split(".", 1)[1]]])  # a frozen set of types
             if rest in self.prog.sqlglot.classes:
                 return ClsRef("exp." + rest)
             if rest == "DataType.Type":
@@ -729,6 +731,37 @@ class Interp:
 
     def comprehension(self, e, env, kind):
         if len(e.generators) != 1:
+            # nested `for` clauses over concrete iterables: the loops run in order, inner iterables may use outer targets
+            out, dout, dkeys = [], {}, {}
+            sub0 = Env(env.mod, env.fn, env)
+
+            def level(i, sub):
+                if i == len(e.generators):
+                    if kind == "dict":
+                        k = self.ev(e.key, sub)
+                        dout[k.v if isinstance(k, Const) else tagof(k)] = self.ev(e.value, sub)
+                        if not isinstance(k, Const):
+                            dkeys[tagof(k)] = k
+                    else:
+                        out.append(self.ev(e.elt, sub))
+                    return True
+                g = e.generators[i]
+                src = self.iter_values(self.force(self.ev(g.iter, sub)), e)
+                if src is None:
+                    return False
+                for x in src:
+                    self.assign(g.target, x, sub)
+                    if all(self.truth(self.ev(c, sub)) for c in g.ifs):
+                        if not level(i + 1, sub):
+                            return False
+                return True
+
+            if level(0, sub0):
+                if kind == "dict":
+                    dres = Dct(dout)
+                    dres.keyvals.update(dkeys)
+                    return dres
+                return Lst(out)
             return Sym(f"comp@{self.siteid(e)}")
         g = e.generators[0]
         it = self.force(self.ev(g.iter, env))
